@@ -242,7 +242,11 @@ Fixpoint inl (rj : nat) (t : tree) (cx : ctx) (s : cst) {struct t} : res out :=
       if with_data && negb (lit_ok ix) then Err E_literal else
       sub r (plain c) (emit s1 (i, if with_data then OData ix else ONone) (Some ix)))
     | KUnary i child_right =>
-      seq2 (req (if child_right then r else l) (plain c) s) (fun s1 => ret (emit s1 (i, ONone) (Some ix)))
+      (* a suffix operator may carry a right child (a side effect block after
+         the suffix expression): it is built after the operation *)
+      seq2 (req (if child_right then r else l) (plain c) s) (fun s1 =>
+      let s2 := emit s1 (i, ONone) (Some ix) in
+      if child_right then ret s2 else sub r (plain c) s2)
     | KBinary i right_first =>
       if negb (present r && present l) then cerr else
       seq2 (req (if right_first then r else l) (plain c) s) (fun s1 =>
@@ -320,7 +324,9 @@ Fixpoint inl (rj : nat) (t : tree) (cx : ctx) (s : cst) {struct t} : res out :=
     | KFixApply child_right =>
       if negb (lit_ok ix) then Err E_literal else
       let s1 := emit s (I_Resolve, OData ix) None in
-      seq2 (req (if child_right then r else l) (plain c) s1) (fun s2 => ret (emit s2 (I_Apply, ONone) (Some ix)))
+      seq2 (req (if child_right then r else l) (plain c) s1) (fun s2 =>
+      let s3 := emit s2 (I_Apply, ONone) (Some ix) in
+      if child_right then ret s3 else sub r (plain c) s3)
     | KInfix =>
       if negb (lit_ok ix) then Err E_literal else
       let s1 := emit s (I_Resolve, OData ix) None in
